@@ -269,6 +269,11 @@ let respond (line : String.t) : String.t =
     (match subs_of_term (parse_term s) with
      | None -> "nosubs"
      | Some s -> bool_s (stable_key s (parse_term bounded) (parse_term trait_)))
+  | [ "applykey"; s; rb; rt ] ->
+    (* forward substitution of a key: compared with the crate's Substitutions::apply *)
+    (match subs_of_term (parse_term s) with
+     | None -> "nosubs"
+     | Some s -> show_term (mk "Key" "" [ apply s (parse_term rb); apply s (parse_term rt) ]))
   | [ "roundtrip"; s; bounded; trait_; rb; rt ] ->
     (match subs_of_term (parse_term s) with
      | None -> "nosubs"
